@@ -325,8 +325,12 @@ def evaluate(oracle: Oracle, case, active_known=frozenset()):
     return ("ok", info)
 
 
-def run_oracle(prop_id, oracle: Oracle, n_examples, seed_int, active_known, deadline_ts):
-    """Run one oracle; returns (stats, failures) with failures = list of dicts."""
+def run_oracle(prop_id, oracle: Oracle, n_examples, seed_int, active_known, deadline_ts, skip_minimal=False):
+    """Run one oracle; returns (stats, failures) with failures = list of dicts.
+
+    `skip_minimal`: Hypothesis opens every run with the all-minimal example, which is the
+    same in every shard; shards other than the first do not spend an evaluation on it (it is
+    neither evaluated nor counted, and one more example is requested instead)."""
     import hypothesis
     from hypothesis import HealthCheck, Phase, given, settings
 
@@ -340,8 +344,13 @@ def run_oracle(prop_id, oracle: Oracle, n_examples, seed_int, active_known, dead
         rounds += 1
         best = {}
         t_first_fail = [None]
+        calls = [0]
+        skip_this_round = skip_minimal and rounds == 1 and oracle.machine is None
 
         def body(case):
+            calls[0] += 1
+            if skip_this_round and calls[0] == 1:
+                return
             if time.time() > deadline_ts:
                 stats.budget_skipped += 1
                 return
@@ -385,7 +394,7 @@ def run_oracle(prop_id, oracle: Oracle, n_examples, seed_int, active_known, dead
         else:
             test = given(oracle.strategy)(body)
             test = settings(
-                max_examples=remaining,
+                max_examples=remaining + (1 if skip_this_round else 0),
                 database=None,
                 deadline=None,
                 derandomize=False,
@@ -583,6 +592,7 @@ def run_shard(prop_id, module, tier, seed, shard, nshards, budget_s, only=None):
             derive_seed(seed, shard),
             frozenset(active.get(oracle.name, ())),
             deadline_ts,
+            skip_minimal=shard > 0,
         )
         results.append(st.to_json())
         failures.extend(fl)
